@@ -1,6 +1,8 @@
 (* C11 property theorems ONLY (each closed by an already proved lemma) + assumptions. *)
 From Coq Require Import ZArith Reals Lra List Bool PrimFloat.
-From RV Require Import Common.Num Common.RealNum Common.FloatNum C11.Parser C11.ParserProofs C11.Orbit C11.OrbitProofs C11.Run.
+From RV Require Import Common.Num Common.RealNum Common.FloatNum C11.Parser C11.ParserProofs C11.Orbit C11.OrbitProofs C11.Run
+  C11.OrbitInv C11.InvProofs C11.RoundTrip C11.Flow.
+From Coquelicot Require Import Coquelicot.
 Import ListNotations.
 
 (* ---- the two front ends (C: reb_particle_from_fmt_errV, Python: Particle.__init__) ------------------------- *)
@@ -98,6 +100,89 @@ Theorem C11_kepler_residual_hyperbolic : forall (L : libm R) fuel e M E,
   Rabs (E - e * l_sinh L E + M) < 1 / 10000000000000000.
 Proof. exact hyp_fuel_exit. Qed.
 Print Assumptions C11_kepler_residual_hyperbolic.
+
+(* ---- round 2: reb_mod2pi, ranges of reb_orbit_from_particle_err, Pal Newton step, value flow ------------------ *)
+
+(* reb_mod2pi(x) = fmod(2pi + fmod(x, 2pi), 2pi) lies in [0, 2pi) and differs from x by a multiple of 2pi, for any
+   fmod with the C99 specification (x - k*y, sign of x, magnitude < y) *)
+Theorem C11_mod2pi_range : forall (L : libm R), 0 < l_pi L -> fmod_spec (l_fmod L) -> forall x,
+  0 <= mod2pi RNum L x < 2 * l_pi L /\ exists k : Z, mod2pi RNum L x = x - IZR k * (2 * l_pi L).
+Proof. exact mod2pi_range. Qed.
+Print Assumptions C11_mod2pi_range.
+
+(* every orbit returned without error has e, d, v, h >= 0, inc in [0, pi], Omega in [-pi, pi],
+   omega, f, M, l, theta in [0, 2pi) *)
+Theorem C11_orbit_ranges : forall (L : libm R) (L2 : libm2 R),
+  0 < l_pi L -> fmod_spec (l_fmod L) -> (forall x, 0 <= l_acos L2 x <= l_pi L) ->
+  forall tiny G t0 p prim o, orbit_from_particle_err RNum L L2 tiny G t0 p prim = inr o ->
+  0 <= o_e o /\ 0 <= o_d o /\ 0 <= o_v o /\ 0 <= o_h o /\
+  0 <= o_inc o <= l_pi L /\ - l_pi L <= o_Omega o <= l_pi L /\
+  0 <= o_omega o < 2 * l_pi L /\ 0 <= o_f o < 2 * l_pi L /\ 0 <= o_M o < 2 * l_pi L /\
+  0 <= o_l o < 2 * l_pi L /\ 0 <= o_theta o < 2 * l_pi L.
+Proof. exact orbit_ranges. Qed.
+Print Assumptions C11_orbit_ranges.
+
+(* the hypotheses on libm are met by PI, acos and truncated-division fmod *)
+Theorem C11_libm_hypotheses_inhabited : 0 < PI /\ fmod_spec fmodR /\ (forall x, 0 <= acos x <= PI).
+Proof. exact real_libm_sane. Qed.
+Print Assumptions C11_libm_hypotheses_inhabited.
+
+(* (J00 J01; J10 J11) is the Jacobian of Pal's Kepler system (f0, f1) with respect to (q, p) ... *)
+Theorem C11_pal_jacobian_is_derivative : forall h k lam q p,
+  is_derive (fun q => pal_f0 h k lam q p) q (J00 q p) /\
+  is_derive (fun p => pal_f0 h k lam q p) p (J01 q p) /\
+  is_derive (fun q => pal_f1 h k lam q p) q (J10 q p) /\
+  is_derive (fun p => pal_f1 h k lam q p) p (J11 q p).
+Proof. exact pal_jacobian_is_derivative. Qed.
+Print Assumptions C11_pal_jacobian_is_derivative.
+
+(* ... and one pass of the loop body of reb_tools_solve_kepler_pal is the exact Newton step J.(dq,dp) = -(f0,f1)
+   whenever q <> 1 (regression theorem for the transposed-inverse defect fixed in /repo c089d6c), and the
+   quantity tested against 1e-15 is |(f0,f1)| *)
+Theorem C11_pal_newton_step_exact : forall (L : libm R), l_sin L = sin -> l_cos L = cos ->
+  forall h k lam p q p' q' f, q <> 1 -> pal_step RNum L h k lam p q = (p', q', f) ->
+  J00 q p * (q' - q) + J01 q p * (p' - p) = - pal_f0 h k lam q p /\
+  J10 q p * (q' - q) + J11 q p * (p' - p) = - pal_f1 h k lam q p /\
+  f = R_sqrt.sqrt (pal_f0 h k lam q p * pal_f0 h k lam q p + pal_f1 h k lam q p * pal_f1 h k lam q p).
+Proof. exact pal_step_is_newton. Qed.
+Print Assumptions C11_pal_newton_step_exact.
+
+(* value flow: the elements (a,e,inc,Omega,omega,f) the two front ends hand to reb_particle_from_orbit_err are the
+   same expressions (any arithmetic: binary64 included) unless a comes from P or M from T ... *)
+Theorem C11_value_flow_same_bitwise : forall T (N : Num T) (L : libm T) cbrt pow pe an v, an <> AnT ->
+  py_elements N L pow false pe an v = c_elements N L cbrt false pe an v.
+Proof. intros. apply flow_same_bitwise. assumption. Qed.
+Print Assumptions C11_value_flow_same_bitwise.
+
+(* ... and in those two cases they differ only by Python's ** against C's cbrt / sqrt / repeated product *)
+Theorem C11_value_flow_same : forall T (N : Num T) (L : libm T) cbrt pow afp pe an v,
+  pow_like_c N L cbrt pow v ->
+  nmul N (nmul N (nofZ N 4) (l_pi L)) (l_pi L) = nmul N (nofZ N 4) (nmul N (l_pi L) (l_pi L)) ->
+  py_elements N L pow afp pe an v = c_elements N L cbrt afp pe an v.
+Proof. intros. apply flow_same; assumption. Qed.
+Print Assumptions C11_value_flow_same.
+
+(* round trip, scalar part: reading back the particle built from (a,e,inc,Omega,omega,f) returns a and e EXACTLY
+   (over the reals), the distance a(1-e^2)/(1+e cos f), |h| = sqrt(mu a (1-e^2)) and cos inc = h_z/|h| ... *)
+Theorem C11_roundtrip_a_e : forall (L : libm R) (L2 : libm2 R) tiny G t0 prim m a e t p o,
+  trig_ok t -> 0 < G * (m + pm prim) -> shape_ok a e -> -1 < e * cf t -> tiny <= pm prim ->
+  from_orbit_err RNum tiny G prim m a e t = inr p ->
+  orbit_from_particle_err RNum L L2 tiny G t0 p prim = inr o ->
+  o_a o = a /\ o_e o = e /\ o_d o = a * (1 - e*e) / (1 + e * cf t) /\
+  o_h o = R_sqrt.sqrt (G * (m + pm prim) * a * (1 - e*e)) /\
+  (0 < o_h o -> o_hz o / o_h o = ci t).
+Proof. exact roundtrip_scalars. Qed.
+Print Assumptions C11_roundtrip_a_e.
+
+(* ... and the inclination itself through the acos2 clamping logic, for 0 < inc < PI *)
+Theorem C11_roundtrip_inc : forall (L : libm R) (L2 : libm2 R) tiny G t0 prim m a e t p o inc,
+  trig_ok t -> 0 < G * (m + pm prim) -> shape_ok a e -> -1 < e * cf t -> tiny <= pm prim ->
+  l_acos L2 = acos -> ci t = cos inc -> 0 < inc < PI ->
+  from_orbit_err RNum tiny G prim m a e t = inr p ->
+  orbit_from_particle_err RNum L L2 tiny G t0 p prim = inr o ->
+  o_inc o = inc.
+Proof. exact roundtrip_inc. Qed.
+Print Assumptions C11_roundtrip_inc.
 
 (* Non-vacuity: a concrete inclined eccentric orbit (cos/sin pairs 3/5,4/5 etc.) meets every hypothesis. *)
 Example C11_hypotheses_inhabited :
